@@ -8,6 +8,7 @@ import (
 	"encoding/json"
 	"fmt"
 	"io"
+	"os"
 	"strconv"
 	"strings"
 	"time"
@@ -146,10 +147,21 @@ func (s *Scenario) execPolicy(starve, suspend string) (*zzvs.Result, string) {
 	body := func() {
 		c.prior()
 		var w io.Writer = &buf
+		var f *os.File
+		if c.ToFile {
+			f = scratchOut()
+			w = f
+		}
 		if wrap != nil {
 			w = wrap(w)
 		}
 		err = c.Run(w)
+		if f != nil {
+			b, _ := os.ReadFile(f.Name())
+			buf.Write(b)
+			f.Close()
+			os.Remove(f.Name())
+		}
 		s := buf.String()
 		atReturn = &s
 	}
@@ -473,11 +485,10 @@ func canonJudge(prefix string) func(sc *Scenario, st *engine.Stats, res *engine.
 }
 
 // addSchedLayer wraps a property's Plan/Exec with a schedule layer over scens.
-var layerScens []func() []Scenario
-var layerByProp = map[string]func() []Scenario{}
 
-func addSchedLayer(p *Prop, prefix string, scens func() []Scenario) {
-	layerScens = append(layerScens, scens)
+// addRacePass registers the scenarios of a property's schedule layer for the complementary free-running
+// -race pass (run after all jobs): each scenario in its own cold process, threads 2..16.
+func addRacePass(p *Prop, scens func() []Scenario) {
 	layerByProp[p.ID] = scens
 	post := p.Post
 	id := p.ID
@@ -485,9 +496,6 @@ func addSchedLayer(p *Prop, prefix string, scens func() []Scenario) {
 		if post != nil {
 			post(tier, total)
 		}
-		// complementary free-running pass under the Go race detector: each scenario of the layer in its own
-		// cold process (threads 2..16), validating the scheduler's assumption that code between two scheduling
-		// points is goroutine-local
 		var names []string
 		for _, sc := range scens() {
 			if !sc.WriteVisible {
@@ -497,6 +505,14 @@ func addSchedLayer(p *Prop, prefix string, scens func() []Scenario) {
 		racePass(id, total, []string{"4"}, names)
 	}
 	p.Assumptions = append(p.Assumptions, "schedule layer: code between two scheduling points is goroutine-local; validated by a free-running -race pass of the layer's scenarios (each in a cold process, threads 2..16), not by the scheduler")
+}
+
+var layerScens []func() []Scenario
+var layerByProp = map[string]func() []Scenario{}
+
+func addSchedLayer(p *Prop, prefix string, scens func() []Scenario) {
+	layerScens = append(layerScens, scens)
+	addRacePass(p, scens)
 	var cached []Scenario
 	get := func() []Scenario {
 		if cached == nil {
@@ -577,6 +593,18 @@ func schedPair(name string, mk func(n int) Call, extraSizes ...int) []Scenario {
 		c.NCPU = 2
 		c.PriorCall = true
 		out = append(out, Scenario{Name: fmt.Sprintf("%s/n4/t2/second-call", name), Family: name, Call: c, Mode: "D1M0"})
+	}
+	// the output destination is an *os.File, as it is in the CLI (4 records, <=1 non-default choice + families)
+	{
+		c := mk(4)
+		if c.Threads == 0 {
+			c.Threads = 2
+		}
+		c.NCPU = 2
+		c.ToFile = true
+		if c.Cmd != "topa" {
+			out = append(out, Scenario{Name: fmt.Sprintf("%s/n4/t2/to-file", name), Family: name, Call: c, Mode: "D1M0"})
+		}
 	}
 	// output writes as visible operations (3 records, every execution with <=2 non-default choices): no write
 	// may still be pending when the command returns, whatever the schedule
